@@ -369,6 +369,7 @@ class Ref:
         values = []
         binds: list = []
         first = True
+        first_cut = False
         p0 = p
         while True:
             s2 = Scope()
@@ -384,14 +385,20 @@ class Ref:
                     its.append(self.closed(fold_items(r[1])))
                 b2 += r[2]
                 s2.cut = True   # a join commits after each separator
-            r = self.eval(body, q, s2)
+            sb = Scope()
+            r = self.eval(body, q, sb)
+            if sb.cut and (first or 'cut-lost-in-later-iterations' not in self.quirks):
+                s2.cut = True
+                if first:
+                    first_cut = True
             if r is None:
                 if s2.cut:
                     if first and not positive:
                         # {x} = B -> x B | e : the first option was committed
                         return None
-                    if not first and sep is not None and not positive:
+                    if not first and sep is not None and not positive and not first_cut:
                         # s%{e} = s%{e}+ | {} : the positive form fails, the empty closure remains
+                        # (unless the first e passed a cut, which commits that first option)
                         return (p0, [[]], [])
                     return None
                 break
